@@ -9,7 +9,31 @@ package sched
 import (
 	"fmt"
 	"sync"
+	"sync/atomic"
+	"time"
 )
+
+// StallTimeout: an execution in which no thread reaches a scheduling point for this long (real time) is one in which the
+// running thread blocks on something the scheduler does not own (a raw channel, a timer, a real socket). The scheduler
+// cannot drive such code; Run then panics with a Stall value (the process must not use a scheduler afterwards: the stuck
+// goroutines stay behind) and the check falls back to whatever free-running pass it has, reporting exhaustive=false.
+var StallTimeout = 45 * time.Second
+
+// Stall is the panic value of Run when the code under test blocks outside the scheduler's control.
+type Stall struct {
+	Thread int
+	Last   Event
+	Events int
+}
+
+func (st Stall) Error() string {
+	return fmt.Sprintf("no scheduling point reached for %v: thread %d blocks outside the scheduler's control after %d events (its last announced operation: %s %s)", StallTimeout, st.Thread, st.Events, st.Last.Kind, st.Last.Obj)
+}
+
+var poisoned atomic.Bool
+
+// Poisoned reports whether an earlier execution in this process stalled.
+func Poisoned() bool { return poisoned.Load() }
 
 // Event is one entry of the execution trace.
 type Event struct {
@@ -56,6 +80,7 @@ type Scheduler struct {
 	Deadlocked          []int // threads still blocked at the very end
 	Diverged            string
 	maxEvents           int
+	progress            atomic.Int64
 }
 
 type sentinel struct{}
@@ -74,6 +99,9 @@ func Active() *Scheduler {
 
 // New creates a scheduler that replays prefix and then always takes choice 0.
 func New(prefix []int) *Scheduler {
+	if poisoned.Load() {
+		panic("sched: New after a stalled execution (goroutines of that execution are still around)")
+	}
 	return &Scheduler{prefix: prefix, running: -1, doneCh: make(chan struct{}), maxEvents: 200000}
 }
 
@@ -129,7 +157,7 @@ func (s *Scheduler) Run(bodies ...func()) {
 		s.addThread(b, fmt.Sprintf("T%d", i))
 	}
 	s.dispatch(-1, false)
-	<-s.doneCh
+	s.awaitDone()
 	// unwind whatever is still blocked
 	for _, t := range s.threads {
 		if !t.finished {
@@ -146,6 +174,33 @@ func (s *Scheduler) Run(bodies ...func()) {
 	curMu.Lock()
 	cur = nil
 	curMu.Unlock()
+}
+
+// awaitDone waits for the end of the execution, watching for a stall.
+func (s *Scheduler) awaitDone() {
+	tick := time.NewTicker(StallTimeout / 8)
+	defer tick.Stop()
+	last, since := s.progress.Load(), time.Now()
+	for {
+		select {
+		case <-s.doneCh:
+			return
+		case <-tick.C:
+			if p := s.progress.Load(); p != last {
+				last, since = p, time.Now()
+			} else if time.Since(since) > StallTimeout {
+				poisoned.Store(true)
+				curMu.Lock()
+				cur = nil
+				curMu.Unlock()
+				st := Stall{Thread: s.running, Events: len(s.Trace)}
+				if n := len(s.Trace); n > 0 {
+					st.Last = s.Trace[n-1]
+				}
+				panic(st)
+			}
+		}
+	}
 }
 
 // Panics returns the panic values of threads that crashed.
@@ -168,6 +223,7 @@ func (s *Scheduler) NumThreads() int { return len(s.threads) }
 // dispatch picks the next thread. from = id of the thread that reached a point (-1 if none), fromEnabled = its predicate.
 // It returns true if the caller (from) was chosen and may continue.
 func (s *Scheduler) dispatch(from int, fromEnabled bool) bool {
+	s.progress.Add(1)
 	for {
 		var enabled []int
 		if from >= 0 && fromEnabled {
